@@ -199,10 +199,12 @@ def run(ck, tier=None):
     import gen_curvebounds   # noqa  (tools/: translator tie)
     rep = gen_curvebounds.main(REPO, os.path.join(ck.rundir, 'CurveBoundsGen.v'))
     ok_gen = ck.gen('CurveBoundsGen.v', rep, 'CurveBoundsGenEq.v')
-    prev_chk = ck.cov.get('coqchk_axioms')
-    ck.props('Props/C09c.v')
-    if prev_chk is not None and 'coqchk_axioms' in ck.cov:      # thorough tier: keep the other property files' result too
-        ck.cov['coqchk_axioms'] = sorted(set(prev_chk) | set(ck.cov['coqchk_axioms']))
+    if not any(o['kind'] == 'theorem' and o['name'] == 'C09_circle_bounds_rounded_match_extents' for o in ck.obligations):
+        # (c09.py may already have compiled the property file)
+        prev_chk = ck.cov.get('coqchk_axioms')
+        ck.props('Props/C09c.v')
+        if prev_chk is not None and 'coqchk_axioms' in ck.cov:      # thorough tier: keep the other property files' result too
+            ck.cov['coqchk_axioms'] = sorted(set(prev_chk) | set(ck.cov['coqchk_axioms']))
 
     n = 40 if tier == 'quick' else 400
     if not ok_gen:
